@@ -628,6 +628,26 @@ type modSet struct {
 	objs  map[types.Object]bool
 	heaps map[string]bool
 	all   bool
+	bases map[string]map[types.Object]bool // heap -> variables holding the written references
+	anyB  map[string]bool                  // heap written through an arbitrary expression
+}
+
+func (ms *modSet) heapAt(h string, base ast.Expr, f *FuncCtx) {
+	ms.heaps[h] = true
+	if ms.bases == nil {
+		ms.bases = map[string]map[types.Object]bool{}
+		ms.anyB = map[string]bool{}
+	}
+	if id, ok := ast.Unparen(base).(*ast.Ident); ok {
+		if o := f.info().ObjectOf(id); o != nil {
+			if ms.bases[h] == nil {
+				ms.bases[h] = map[types.Object]bool{}
+			}
+			ms.bases[h][o] = true
+			return
+		}
+	}
+	ms.anyB[h] = true
 }
 
 func (f *FuncCtx) modsOf(nodes []ast.Node, env *Env, depth int, ms *modSet) {
@@ -644,7 +664,7 @@ func (f *FuncCtx) modsOf(nodes []ast.Node, env *Env, depth int, ms *modSet) {
 				if _, el, ok := ptrStruct(t); ok {
 					if obj, _, _ := types.LookupFieldOrMethod(t, true, f.Pkg.Types, e.Sel.Name); obj != nil {
 						if fl, ok := obj.(*types.Var); ok {
-							ms.heaps[f.heapName(el, fl)] = true
+							ms.heapAt(f.heapName(el, fl), e.X, f)
 							return
 						}
 					}
@@ -658,7 +678,7 @@ func (f *FuncCtx) modsOf(nodes []ast.Node, env *Env, depth int, ms *modSet) {
 			if t := f.typeOf(e.X); t != nil {
 				if st, el, ok := ptrStruct(t); ok {
 					for i := 0; i < st.NumFields(); i++ {
-						ms.heaps[f.heapName(el, st.Field(i))] = true
+						ms.heapAt(f.heapName(el, st.Field(i)), e.X, f)
 					}
 				}
 			}
@@ -732,24 +752,37 @@ func (f *FuncCtx) modsOfFunc(o *types.Func, call *ast.CallExpr, env *Env, depth 
 				// receiver field: find heap by field name on the receiver type
 				sig := o.Type().(*types.Signature)
 				var bt types.Type
+				var bexpr ast.Expr
 				base := a[:i]
 				if r := sig.Recv(); r != nil && r.Name() == base {
 					bt = r.Type()
+					if sel, ok := ast.Unparen(call.Fun).(*ast.SelectorExpr); ok {
+						bexpr = sel.X
+					}
 				}
 				for k := 0; k < sig.Params().Len(); k++ {
 					if sig.Params().At(k).Name() == base {
 						bt = sig.Params().At(k).Type()
+						if k < len(call.Args) {
+							bexpr = call.Args[k]
+						}
 					}
 				}
 				if bt != nil {
 					if _, el, ok := ptrStruct(bt); ok {
 						if obj, _ := lookupFieldAnyPkg(bt, a[i+1:]); obj != nil {
-							ms.heaps[f.heapName(el, obj.(*types.Var))] = true
+							h := f.heapName(el, obj.(*types.Var))
+							if bexpr != nil {
+								ms.heapAt(h, bexpr, f)
+							} else {
+								ms.heapAt(h, &ast.BasicLit{}, f)
+							}
 							continue
 						}
 					}
 				}
-				ms.all = true
+				// assigns through a callee-local object: invisible here
+				continue
 			} else {
 				// by-reference parameter
 				sig := o.Type().(*types.Signature)
@@ -765,7 +798,7 @@ func (f *FuncCtx) modsOfFunc(o *types.Func, call *ast.CallExpr, env *Env, depth 
 								if t := f.typeOf(r.X); t != nil {
 									if _, el, ok := ptrStruct(t); ok {
 										if obj, _ := lookupFieldAnyPkg(t, r.Sel.Name); obj != nil {
-											ms.heaps[f.heapName(el, obj.(*types.Var))] = true
+											ms.heapAt(f.heapName(el, obj.(*types.Var)), r.X, f)
 										}
 									}
 								}
@@ -863,7 +896,30 @@ func (f *FuncCtx) loopCommon(label string, env *Env, fl *flow, nodes []ast.Node,
 	sort.Strings(hs)
 	for _, h := range hs {
 		srt := f.heapSort[h]
-		head.heap[h] = f.fresh("Hl_"+strings.TrimPrefix(h, "H."), fmt.Sprintf("(Array %s %s)", srt[0], srt[1]))
+		hsort := fmt.Sprintf("(Array %s %s)", srt[0], srt[1])
+		exact := !ms.anyB[h] && len(ms.bases[h]) > 0
+		var bvals []string
+		if exact {
+			for o := range ms.bases[h] {
+				v, ok := env.vars[o]
+				if !ok || ms.objs[o] || v.Clo != nil {
+					exact = false // the base variable itself changes in the loop
+					break
+				}
+				bvals = append(bvals, v.T)
+			}
+		}
+		if !exact {
+			head.heap[h] = f.fresh("Hl_"+strings.TrimPrefix(h, "H."), hsort)
+			continue
+		}
+		// only the locations written in the loop are havocked; all other references keep their values
+		sort.Strings(bvals)
+		cur := f.heapGet(env, h)
+		for _, b := range bvals {
+			cur = fmt.Sprintf("(store %s %s %s)", cur, b, f.fresh("hl", srt[1]))
+		}
+		head.heap[h] = f.define("Hl_"+strings.TrimPrefix(h, "H."), hsort, cur)
 	}
 	for k, v := range ghost {
 		if strings.HasPrefix(k, "$i") || strings.HasPrefix(k, "$n") {
